@@ -209,6 +209,11 @@ func Convert(value any, typ reflect.Type) (any, error) { //nolint: gocyclo
 		case reflect.Array, reflect.Slice:
 			result := reflect.MakeSlice(typ, 0, rv.Len())
 			for i := range rv.Len() {
+				if rv.Index(i).Interface() == nil {
+					// a nil element stays nil (the zero value of the element type)
+					result = reflect.Append(result, reflect.Zero(typ.Elem()))
+					continue
+				}
 				item, err := Convert(rv.Index(i).Interface(), typ.Elem())
 				if err != nil {
 					return nil, err
